@@ -2,7 +2,7 @@
   D128/Proofs/LogAccReal.lean — real-analysis side of `decomposed192.log`: the series against `Real.log`.
 
   * `Sj_eq_sum`, `Sj_cast`     : `Sj f j` is the partial sum `Σ_{i ≤ j} f·(f·f)^i/(2i+1)` (also over ℝ)
-  * `tailR F = F·(F·F)^13/(27·(1 − F·F))` : the geometric bound of the omitted terms (`i ≥ 13`)
+  * `tailR F = F·(F·F)^17/(35·(1 − F·F))` : the geometric bound of the omitted terms (`i ≥ 17`)
   * `log_sub_le`, `log_sub_abs` : `|log a − log b| ≤ |a − b|/min a b`
   * `series_bounds`            : `0 ≤ F < 1`: `2·S ≤ log((1+F)/(1−F)) ≤ 2·S + 2·tailR F`
   * `log_v2_series`            : `1 ≤ V`, `z = (V−1)/(V+1)`, `z(1−lam) ≤ F ≤ z(1+eps)/(1−lam)`, `F ≤ 1/20`:
@@ -34,15 +34,15 @@ theorem Sj_ge (f : ℚ) (hf : 0 ≤ f) : ∀ j, f ≤ Sj f j
       have : 0 ≤ f * (f ^ 2) ^ (j + 1) / ((2 * (j + 1) + 1 : Nat) : ℚ) := by positivity
       linarith
 
-/-- geometric bound of the omitted terms of the artanh series after 13 terms -/
-noncomputable def tailR (F : ℝ) : ℝ := F * (F * F) ^ 13 / (((2 * 13 + 1 : ℕ) : ℝ) * (1 - F * F))
+/-- geometric bound of the omitted terms of the artanh series after 17 terms -/
+noncomputable def tailR (F : ℝ) : ℝ := F * (F * F) ^ 17 / (((2 * 17 + 1 : ℕ) : ℝ) * (1 - F * F))
 
 theorem series_bounds (f : ℚ) (h0 : 0 ≤ f) (h1 : f < 1) :
-    2 * ((Sj f 12 : ℚ) : ℝ) ≤ Real.log (1 + (f : ℝ)) - Real.log (1 - (f : ℝ)) ∧
-    Real.log (1 + (f : ℝ)) - Real.log (1 - (f : ℝ)) ≤ 2 * ((Sj f 12 : ℚ) : ℝ) + 2 * tailR (f : ℝ) := by
+    2 * ((Sj f 16 : ℚ) : ℝ) ≤ Real.log (1 + (f : ℝ)) - Real.log (1 - (f : ℝ)) ∧
+    Real.log (1 + (f : ℝ)) - Real.log (1 - (f : ℝ)) ≤ 2 * ((Sj f 16 : ℚ) : ℝ) + 2 * tailR (f : ℝ) := by
   have h0' : (0 : ℝ) ≤ (f : ℝ) := by exact_mod_cast h0
   have h1' : (f : ℝ) < 1 := by exact_mod_cast h1
-  obtain ⟨b1, b2⟩ := EnclPf.atanh_series_bounds h0' h1' 13
+  obtain ⟨b1, b2⟩ := EnclPf.atanh_series_bounds h0' h1' 17
   rw [Sj_cast]
   unfold tailR
   constructor <;> linarith
@@ -75,10 +75,10 @@ theorem log_sub_abs {a b m : ℝ} (ha : 0 < a) (hb : 0 < b) (hm : 0 < m) (hma : 
 theorem log_v2_series (V : ℝ) (f : ℚ) (hV : 1 ≤ V) (hf0 : 0 ≤ f) (hf1 : f ≤ 1 / 20)
     (hlo : (V - 1) / (V + 1) * (1 - (lam : ℝ)) ≤ (f : ℝ))
     (hhi : (f : ℝ) ≤ (V - 1) / (V + 1) * ((1 + (Root.eps : ℝ)) / (1 - (lam : ℝ)))) :
-    |Real.log V - 2 * ((Sj f 12 : ℚ) : ℝ)| ≤ 2 * tailR (f : ℝ) + 5 / 10 ^ 56 * ((Sj f 12 : ℚ) : ℝ) := by
+    |Real.log V - 2 * ((Sj f 16 : ℚ) : ℝ)| ≤ 2 * tailR (f : ℝ) + 5 / 10 ^ 56 * ((Sj f 16 : ℚ) : ℝ) := by
   set F : ℝ := (f : ℝ) with hF
   set z : ℝ := (V - 1) / (V + 1) with hz
-  set S : ℝ := ((Sj f 12 : ℚ) : ℝ) with hS
+  set S : ℝ := ((Sj f 16 : ℚ) : ℝ) with hS
   have hF0 : 0 ≤ F := by rw [hF]; exact_mod_cast hf0
   have hF1 : F ≤ 1 / 20 := by
     have : ((f : ℚ) : ℝ) ≤ ((1 / 20 : ℚ) : ℝ) := Rat.cast_le.mpr hf1
@@ -130,7 +130,7 @@ theorem log_v2_series (V : ℝ) (f : ℚ) (hV : 1 ≤ V) (hf0 : 0 ≤ f) (hf1 : 
   rw [e1, div_one] at d1
   rw [e2, abs_neg] at d2
   have hS0 : F ≤ S := by
-    rw [hF, hS]; exact_mod_cast Sj_ge f hf0 12
+    rw [hF, hS]; exact_mod_cast Sj_ge f hf0 16
   -- z ≤ S·(1 + 2e-57)
   have hzS : z ≤ S * (1 + 2 / 10 ^ 57) := by
     have : z * (1 - (lam : ℝ)) ≤ S := le_trans hlo hS0
